@@ -109,7 +109,8 @@ func (t *EnumType) Default() px.Type {
 
 func (t *EnumType) Equals(o interface{}, g px.Guard) bool {
 	if ot, ok := o.(*EnumType); ok {
-		return t.caseInsensitive == ot.caseInsensitive && len(t.values) == len(ot.values) && utils.ContainsAllStrings(t.values, ot.values)
+		// same set of values: each contains the values of the other
+		return t.caseInsensitive == ot.caseInsensitive && utils.ContainsAllStrings(t.values, ot.values) && utils.ContainsAllStrings(ot.values, t.values)
 	}
 	return false
 }
